@@ -7,3 +7,4 @@ MUTANTS.append(("C14","S6-required-field-skipped-when-column-declared (seeded/C1
 MUTANTS.append(("C07","S7-cache-reuses-longer-segment (seeded/C07-f) on C07",dict(patch="/verif/seeded/C07-f/patch.diff")))
 MUTANTS.append(("C07","S8-decode-wraps-17-18-digit-quantities (seeded/C07-g) on C07",dict(patch="/verif/seeded/C07-g/patch.diff")))
 MUTANTS.append(("C14","S9-filter-plans-from-column-names (seeded/C14-g) on C14",dict(patch="/verif/seeded/C14-g/patch.diff")))
+MUTANTS.append(("C07","S10-error-exists-only-for-negative-codes (seeded/C07-h) on C07",dict(patch="/verif/seeded/C07-h/patch.diff")))
